@@ -6,7 +6,7 @@
 #   seedlab.sh teardown         removes both (and the worktree registration)
 # The registered checks of MANIFEST.json never use this; it is a development tool.
 HERE=$(dirname $(dirname $(realpath $0)))
-LAB=/tmp/seedlab
+LAB=${LAB:-/tmp/seedlab}
 case "$1" in
 setup)
   rm -rf $LAB/verif; git -C /repo worktree remove --force $LAB/repo 2>/dev/null; mkdir -p $LAB
